@@ -101,7 +101,7 @@ def brief(obs):
 
 def run(ck):
     b = ck.build('plain')
-    ck.gen(['gen_isa', 'gen_driverphases', 'gen_diagsites'])
+    ck.gen(['gen_isa', 'gen_intfmt', 'gen_driverphases', 'gen_diagsites'])
     ck.prove()
     nv = ck.nvref('c04')
     nvl = ck.nvref('lang')
